@@ -43,7 +43,7 @@ fn test_pcm(channels: u8, bps: u8, frames: u32) -> Pcm {
         frames,
         seed: 11,
         chans: (0..channels).map(|i| ChanRecipe { kind: if i == 0 { Kind::Noise { amp: bps - 2 } } else { Kind::Sines { n: 2, amp: bps - 2, noise: 1 } }, wasted: 0, relation: 0 }).collect(),
-        seg: 0,
+        seg: 0, ms_mix: 0,
     }
     .expand()
 }
